@@ -1,6 +1,6 @@
 (* C04: lemmas and theorems about lib/Order.v, checked against the queue disciplines that
    gen/OrderGen.v reads from the current source. *)
-From Coq Require Import List Bool Arith Lia Sorted.
+From Coq Require Import List Bool Arith ZArith Lia Sorted.
 Import ListNotations.
 Require Import Verif.gen.OrderGen Verif.lib.Order.
 
@@ -21,6 +21,12 @@ Lemma hol_is_blocking : head_of_line = HolBlocking.
 Proof. reflexivity. Qed.
 
 Lemma idle_test_before_enqueue : send_idle_before_enqueue = true.
+Proof. reflexivity. Qed.
+
+Lemma loss_stops_dequeue : checks_disconnected = true.
+Proof. reflexivity. Qed.
+
+Lemma gift_after_loss_fails : ack_after_loss_fails = true.
 Proof. reflexivity. Qed.
 
 Lemma sendq_put (c : call) (l : list call) : q_put sendq_push c l = l ++ [c].
@@ -124,12 +130,15 @@ Qed.
 Record astate := amk {
   a_next : nat;
   a_wait : list nat;      (* ids of `waiting` *)
+  a_drop : list nat;      (* ids of `dropped`: queued when the connection was lost *)
   a_inq : list nat;       (* ids of `inq`, in queue order *)
   a_up : list nat;        (* ids still on the sender or on the wire: wire ++ cur ++ sendq *)
-  a_trace : list event
+  a_trace : list event;
+  a_lost : bool
 }.
 
-Definition abs (s : state) : astate := amk (next_id s) (ids (waiting s)) (inq_ids s) (upstream s) (trace s).
+Definition abs (s : state) : astate :=
+  amk (next_id s) (wait_ids s) (ids (dropped s)) (inq_ids s) (upstream s) (trace s) (lost s).
 
 Inductive fin := FinEntered | FinFailed.
 Definition fin_event (f : fin) (c : nat) : event := match f with FinEntered => Entered c | FinFailed => Failed c end.
@@ -137,14 +146,17 @@ Definition fin_event (f : fin) (c : nat) : event := match f with FinEntered => E
 (* the only ways in which one micro-step of the model changes the abstract view *)
 Inductive eff : astate -> astate -> Prop :=
 | E_none a : eff a a
-| E_issue n w q u t : eff (amk n w q u t) (amk (S n) w q (u ++ [n]) t)
-| E_queue n w q c u t : eff (amk n w q (c :: u) t) (amk n w (q ++ [c]) u (Queued c :: t))
-| E_reject n w q c u t : eff (amk n w q (c :: u) t) (amk n w q u (Rejected c :: t))
-| E_hold n c q u t : eff (amk n [] (c :: q) u t) (amk n [c] q u t)
-| E_finish_inq n c q u t f : eff (amk n [] (c :: q) u t) (amk n [] q u (fin_event f c :: t))
-| E_finish_wait n c q u t f : eff (amk n [c] q u t) (amk n [] q u (fin_event f c :: t)).
+| E_issue n w d q u t l : eff (amk n w d q u t l) (amk (S n) w d q (u ++ [n]) t l)
+| E_queue n w d q c u t l : eff (amk n w d q (c :: u) t l) (amk n w d (q ++ [c]) u (Queued c :: t) l)
+| E_reject n w d q c u t l : eff (amk n w d q (c :: u) t l) (amk n w d q u (Rejected c :: t) l)
+| E_hold n c q u t l : eff (amk n [] [] (c :: q) u t l) (amk n [c] [] q u t l)
+| E_finish_inq n c q u t f l : eff (amk n [] [] (c :: q) u t l) (amk n [] [] q u (fin_event f c :: t) l)
+| E_finish_wait n c d q u t f l : eff (amk n [c] d q u t l) (amk n [] d q u (fin_event f c :: t) l)
+| E_drop n w d q u t l : eff (amk n w d q u t l) (amk n w (d ++ q) [] u t true)
+| E_lose n w d q u t l : eff (amk n w d q u t l) (amk n w d q u t true).
 
-Definition apipe (a : astate) : list nat := entered_of (a_trace a) ++ a_wait a ++ a_inq a ++ a_up a.
+Definition aheld (a : astate) : list nat := a_wait a ++ a_drop a ++ a_inq a.
+Definition apipe (a : astate) : list nat := entered_of (a_trace a) ++ a_wait a ++ a_drop a ++ a_inq a ++ a_up a.
 
 Definition handled (t : list event) (c : nat) : Prop := In (Entered c) t \/ In (Failed c) t.
 
@@ -152,16 +164,18 @@ Record AInv (a : astate) : Prop := {
   ai_sub : sublist (apipe a) (seq 0 (a_next a));
   ai_wait : List.length (a_wait a) <= 1;
   (* a call that was queued is finished or still held by the receiver *)
-  ai_queued : forall c, In (Queued c) (a_trace a) -> handled (a_trace a) c \/ In c (a_wait a ++ a_inq a);
+  ai_queued : forall c, In (Queued c) (a_trace a) -> handled (a_trace a) c \/ In c (aheld a);
   (* a finished call precedes everything the receiver has not finished *)
   ai_handled : forall c, handled (a_trace a) c ->
-               c < a_next a /\ forall p, In p (a_wait a ++ a_inq a ++ a_up a) -> c < p;
+               c < a_next a /\ forall p, In p (a_wait a ++ a_drop a ++ a_inq a ++ a_up a) -> c < p;
   (* head of line *)
   ai_hol : forall l2 c l1 c', a_trace a = l2 ++ Entered c :: l1 -> c' < c -> In (Queued c') (a_trace a) ->
            handled l1 c';
   (* nothing vanishes *)
   ai_all : forall c, c < a_next a ->
-           In c (apipe a) \/ In (Failed c) (a_trace a) \/ In (Rejected c) (a_trace a)
+           In c (apipe a) \/ In (Failed c) (a_trace a) \/ In (Rejected c) (a_trace a);
+  (* deliveries are dropped only by the loss of the connection *)
+  ai_lost : a_lost a = false -> a_drop a = []
 }.
 
 Lemma entered_of_in t c : In c (entered_of t) <-> In (Entered c) t.
@@ -180,7 +194,7 @@ Proof. intros I. eapply sublist_sorted; [apply (ai_sub _ I) | apply seq_sorted].
 Lemma apipe_bound a c : AInv a -> In c (apipe a) -> c < a_next a.
 Proof. intros I H. eapply sublist_in in H; [|apply (ai_sub _ I)]. apply in_seq in H. lia. Qed.
 
-Lemma AInv_init : AInv (amk 0 [] [] [] []).
+Lemma AInv_init : AInv (amk 0 [] [] [] [] [] false).
 Proof.
   split; cbn.
   - constructor.
@@ -189,6 +203,7 @@ Proof.
   - intros c [[]|[]].
   - intros l2 c l1 c' E. destruct l2; discriminate.
   - intros c H; lia.
+  - reflexivity.
 Qed.
 
 Lemma handled_cons e t c : handled t c -> handled (e :: t) c.
@@ -236,7 +251,7 @@ Lemma hol_step (a : astate) (e : event) (t : list event) :
   t = a_trace a ->
   AInv a ->
   (* e is an Entered only for the head of what the receiver holds *)
-  (forall c, e = Entered c -> forall p, In p (a_wait a ++ a_inq a) -> c <= p) ->
+  (forall c, e = Entered c -> forall p, In p (aheld a) -> c <= p) ->
   (* e is a Queued only for something upstream *)
   (forall c, e = Queued c -> In c (a_up a)) ->
   forall l2 c l1 c', e :: t = l2 ++ Entered c :: l1 -> c' < c -> In (Queued c') (e :: t) -> handled l1 c'.
@@ -252,133 +267,165 @@ Proof.
       subst e2. specialize (Hq c' eq_refl).
       assert (Hh : handled (a_trace a) c) by (left; rewrite H1; apply in_or_app; right; left; reflexivity).
       destruct (ai_handled _ I _ Hh) as [_ Hall].
-      specialize (Hall c'). rewrite !in_app_iff in Hall. specialize (Hall (or_intror (or_intror Hq))). lia.
+      specialize (Hall c'). rewrite !in_app_iff in Hall. specialize (Hall (or_intror (or_intror (or_intror Hq)))). lia.
     + eapply (ai_hol _ I); eauto.
 Qed.
 
+Ltac simp_a := unfold apipe, aheld in *; cbn [a_trace a_wait a_drop a_inq a_up a_next a_lost] in *.
+
 Lemma eff_preserves a b : eff a b -> AInv a -> AInv b.
 Proof.
-  intros E I. destruct E.
-  - exact I.
+  intros E I. destruct E; [exact I|..];
+    pose proof (ai_sub _ I) as Isub; pose proof (ai_wait _ I) as Iwait; pose proof (ai_queued _ I) as Iq;
+    pose proof (ai_handled _ I) as Ih; pose proof (ai_hol _ I) as Ihol; pose proof (ai_all _ I) as Iall;
+    pose proof (ai_lost _ I) as Ilost.
   - (* issue *)
-    pose proof (apipe_sorted _ I) as Hs. unfold apipe in *. cbn [a_trace a_wait a_inq a_up a_next] in *.
-    split; cbn [a_trace a_wait a_inq a_up a_next]; unfold apipe; cbn [a_trace a_wait a_inq a_up a_next].
+    pose proof (apipe_sorted _ I) as Hs. simp_a.
+    split; simp_a.
     + rewrite seq_S. cbn [plus]. rewrite !app_assoc. apply sublist_app; [|apply sublist_refl].
-      rewrite <- !app_assoc. apply (ai_sub _ I).
-    + apply (ai_wait _ I).
-    + apply (ai_queued _ I).
-    + intros c Hc. destruct (ai_handled _ I _ Hc) as [Hb Hall]. cbn [a_next a_wait a_inq a_up] in *. split; [lia|].
+      rewrite <- !app_assoc. exact Isub.
+    + exact Iwait.
+    + exact Iq.
+    + intros c Hc. destruct (Ih _ Hc) as [Hb Hall]. simp_a. split; [lia|].
       intros p Hp. rewrite !app_assoc in Hp. apply in_app_or in Hp. destruct Hp as [Hp|[<-|[]]]; [|exact Hb].
       apply Hall. rewrite !app_assoc. exact Hp.
-    + apply (ai_hol _ I).
+    + exact Ihol.
     + intros c Hc. destruct (Nat.eq_dec c n) as [->|Hne].
-      * left. rewrite !in_app_iff. right; right; right; right. left; reflexivity.
-      * destruct (ai_all _ I c) as [H|H]; cbn [a_next]; [lia| |right; exact H].
-        left. unfold apipe in H; cbn [a_trace a_wait a_inq a_up] in H. rewrite !in_app_iff in *. tauto.
+      * left. rewrite !in_app_iff. cbn [In]. tauto.
+      * destruct (Iall c) as [H|H]; simp_a; [lia| |right; exact H].
+        left. rewrite !in_app_iff in *. tauto.
+    + exact Ilost.
   - (* queue *)
-    pose proof (apipe_sorted _ I) as Hs. unfold apipe in Hs. cbn [a_trace a_wait a_inq a_up] in Hs.
-    split; cbn [a_trace a_wait a_inq a_up a_next]; unfold apipe; cbn [a_trace a_wait a_inq a_up a_next entered_of].
-    + rewrite <- !app_assoc. cbn [app]. apply (ai_sub _ I).
-    + apply (ai_wait _ I).
+    pose proof (apipe_sorted _ I) as Hs. simp_a.
+    split; simp_a; cbn [entered_of].
+    + rewrite <- !app_assoc. cbn [app]. exact Isub.
+    + exact Iwait.
     + intros c0 [H|H].
-      * inversion H; subst. right. rewrite !in_app_iff. right; right; left; reflexivity.
-      * destruct (ai_queued _ I _ H) as [H'|H']; [left; apply handled_cons; exact H'|].
-        right. cbn [a_wait a_inq] in H'. rewrite !in_app_iff in *. tauto.
+      * inversion H; subst. right. rewrite !in_app_iff. cbn [In]. tauto.
+      * destruct (Iq _ H) as [H'|H']; [left; apply handled_cons; exact H'|].
+        right. simp_a. rewrite !in_app_iff in *. tauto.
     + intros c0 Hc. apply handled_cons_inv in Hc. destruct Hc as [Hc|[Hc|Hc]]; try discriminate.
-      destruct (ai_handled _ I _ Hc) as [Hb Hall]. cbn [a_next a_wait a_inq a_up] in *. split; [exact Hb|].
+      destruct (Ih _ Hc) as [Hb Hall]. simp_a. split; [exact Hb|].
       intros p Hp. apply Hall. rewrite !in_app_iff in *. cbn [In] in *. tauto.
     + apply (hol_step _ _ _ eq_refl I).
       * discriminate.
       * intros c0 Hc0. inversion Hc0; subst. left; reflexivity.
-    + intros c0 Hc0. destruct (ai_all _ I c0 Hc0) as [H|[H|H]].
-      * left. unfold apipe in H; cbn [a_trace a_wait a_inq a_up] in H. rewrite !in_app_iff in *. cbn [In] in *. tauto.
+    + intros c0 Hc0. destruct (Iall c0 Hc0) as [H|[H|H]].
+      * left. simp_a. rewrite !in_app_iff in *. cbn [In] in *. tauto.
       * right; left; right; exact H.
       * right; right; right; exact H.
+    + exact Ilost.
   - (* reject *)
-    split; cbn [a_trace a_wait a_inq a_up a_next]; unfold apipe; cbn [a_trace a_wait a_inq a_up a_next entered_of].
-    + eapply sublist_trans; [|apply (ai_sub _ I)]. unfold apipe; cbn [a_trace a_wait a_inq a_up].
+    split; simp_a; cbn [entered_of].
+    + eapply sublist_trans; [|exact Isub]. simp_a.
       rewrite !app_assoc. apply sublist_drop_mid.
-    + apply (ai_wait _ I).
+    + exact Iwait.
     + intros c0 [H|H]; [discriminate|].
-      destruct (ai_queued _ I _ H) as [H'|H']; [left; apply handled_cons; exact H' | right; exact H'].
+      destruct (Iq _ H) as [H'|H']; [left; apply handled_cons; exact H' | right; exact H'].
     + intros c0 Hc. apply handled_cons_inv in Hc. destruct Hc as [Hc|[Hc|Hc]]; try discriminate.
-      destruct (ai_handled _ I _ Hc) as [Hb Hall]. cbn [a_next a_wait a_inq a_up] in *. split; [exact Hb|].
+      destruct (Ih _ Hc) as [Hb Hall]. simp_a. split; [exact Hb|].
       intros p Hp. apply Hall. rewrite !in_app_iff in *. cbn [In] in *. tauto.
     + apply (hol_step _ _ _ eq_refl I); discriminate.
-    + intros c0 Hc0. destruct (ai_all _ I c0 Hc0) as [H|[H|H]].
-      * unfold apipe in H; cbn [a_trace a_wait a_inq a_up] in H. rewrite !in_app_iff in H. cbn [In] in H.
+    + intros c0 Hc0. destruct (Iall c0 Hc0) as [H|[H|H]].
+      * simp_a. rewrite !in_app_iff in H. cbn [In] in H.
         destruct (Nat.eq_dec c0 c) as [->|Hne]; [right; right; left; reflexivity|].
         left. rewrite !in_app_iff. intuition congruence.
       * right; left; right; exact H.
       * right; right; right; exact H.
+    + exact Ilost.
   - (* hold *)
-    split; cbn [a_trace a_wait a_inq a_up a_next]; unfold apipe; cbn [a_trace a_wait a_inq a_up a_next].
-    + apply (ai_sub _ I).
+    split; simp_a; cbn [app] in *.
+    + exact Isub.
     + cbn. lia.
-    + intros c0 H. apply (ai_queued _ I) in H. exact H.
-    + intros c0 Hc. apply (ai_handled _ I) in Hc. exact Hc.
-    + apply (ai_hol _ I).
-    + apply (ai_all _ I).
+    + exact Iq.
+    + exact Ih.
+    + exact Ihol.
+    + exact Iall.
+    + reflexivity.
   - (* finish the head of inq *)
-    pose proof (apipe_sorted _ I) as Hs. unfold apipe in Hs. cbn [a_trace a_wait a_inq a_up app] in Hs.
-    split; cbn [a_trace a_wait a_inq a_up a_next]; unfold apipe; cbn [a_trace a_wait a_inq a_up a_next app].
-    + eapply sublist_trans; [apply pipe_finish | apply (ai_sub _ I)].
+    pose proof (apipe_sorted _ I) as Hs. simp_a. cbn [app] in Hs.
+    split; simp_a; cbn [app].
+    + eapply sublist_trans; [apply pipe_finish | exact Isub].
     + cbn; lia.
     + intros c0 [H|H]; [exfalso; eapply fin_event_not_queued; eauto|].
-      destruct (ai_queued _ I _ H) as [H'|H']; [left; apply handled_cons; exact H'|].
-      cbn [a_wait a_inq app] in H'. destruct H' as [<-|H']; [left; apply fin_event_handled | right; exact H'].
+      destruct (Iq _ H) as [H'|H']; [left; apply handled_cons; exact H'|].
+      simp_a. cbn [app] in H'. destruct H' as [<-|H']; [left; apply fin_event_handled | right; exact H'].
     + intros c0 Hc. apply handled_cons_inv in Hc.
       assert (Hc0 : c0 = c \/ handled t c0).
       { destruct Hc as [Hc|[Hc|Hc]]; auto; destruct f; inversion Hc; auto. }
       destruct Hc0 as [->|Hc0].
       * split.
-        -- apply (apipe_bound _ c I). unfold apipe; cbn [a_trace a_wait a_inq a_up app]. apply in_or_app; right; left; reflexivity.
+        -- apply (apipe_bound _ c I). simp_a. cbn [app]. apply in_or_app; right; left; reflexivity.
         -- intros p Hp. apply (sorted_app_lt (entered_of t ++ [c]) (q ++ u)).
            ++ rewrite <- app_assoc. exact Hs.
            ++ apply in_or_app; right; left; reflexivity.
            ++ exact Hp.
-      * destruct (ai_handled _ I _ Hc0) as [Hb Hall]. cbn [a_next a_wait a_inq a_up app] in *. split; [exact Hb|].
+      * destruct (Ih _ Hc0) as [Hb Hall]. simp_a. cbn [app] in *. split; [exact Hb|].
         intros p Hp. apply Hall. right; exact Hp.
     + apply (hol_step _ _ _ eq_refl I).
-      * intros c0 Hc0 p Hp. cbn [a_wait a_inq app] in Hp.
+      * intros c0 Hc0 p Hp. simp_a. cbn [app] in Hp.
         assert (c0 = c) as -> by (destruct f; inversion Hc0; reflexivity).
         apply (sorted_mid_le (entered_of t) c (q ++ u) p Hs). destruct Hp as [->|Hp]; [left; reflexivity|].
         right. apply in_or_app; left; exact Hp.
       * intros c0 Hc0. exfalso; eapply fin_event_not_queued; eauto.
-    + intros c0 Hc0. destruct (ai_all _ I c0 Hc0) as [H|[H|H]].
-      * unfold apipe in H; cbn [a_trace a_wait a_inq a_up app] in H. apply (pipe_all_finish f); exact H.
+    + intros c0 Hc0. destruct (Iall c0 Hc0) as [H|[H|H]].
+      * simp_a. cbn [app] in H. apply (pipe_all_finish f); exact H.
       * right; left; right; exact H.
       * right; right; right; exact H.
+    + reflexivity.
   - (* finish the call that was waiting for its ready_deferred *)
-    pose proof (apipe_sorted _ I) as Hs. unfold apipe in Hs. cbn [a_trace a_wait a_inq a_up app] in Hs.
-    split; cbn [a_trace a_wait a_inq a_up a_next]; unfold apipe; cbn [a_trace a_wait a_inq a_up a_next app].
-    + eapply sublist_trans; [apply pipe_finish | apply (ai_sub _ I)].
+    pose proof (apipe_sorted _ I) as Hs. simp_a. cbn [app] in Hs.
+    split; simp_a; cbn [app].
+    + eapply sublist_trans; [apply pipe_finish | exact Isub].
     + cbn; lia.
     + intros c0 [H|H]; [exfalso; eapply fin_event_not_queued; eauto|].
-      destruct (ai_queued _ I _ H) as [H'|H']; [left; apply handled_cons; exact H'|].
-      cbn [a_wait a_inq app] in H'. destruct H' as [<-|H']; [left; apply fin_event_handled | right; exact H'].
+      destruct (Iq _ H) as [H'|H']; [left; apply handled_cons; exact H'|].
+      simp_a. cbn [app] in H'. destruct H' as [<-|H']; [left; apply fin_event_handled | right; exact H'].
     + intros c0 Hc. apply handled_cons_inv in Hc.
       assert (Hc0 : c0 = c \/ handled t c0).
       { destruct Hc as [Hc|[Hc|Hc]]; auto; destruct f; inversion Hc; auto. }
       destruct Hc0 as [->|Hc0].
       * split.
-        -- apply (apipe_bound _ c I). unfold apipe; cbn [a_trace a_wait a_inq a_up app]. apply in_or_app; right; left; reflexivity.
-        -- intros p Hp. apply (sorted_app_lt (entered_of t ++ [c]) (q ++ u)).
+        -- apply (apipe_bound _ c I). simp_a. cbn [app]. apply in_or_app; right; left; reflexivity.
+        -- intros p Hp. apply (sorted_app_lt (entered_of t ++ [c]) (d ++ q ++ u)).
            ++ rewrite <- app_assoc. exact Hs.
            ++ apply in_or_app; right; left; reflexivity.
            ++ exact Hp.
-      * destruct (ai_handled _ I _ Hc0) as [Hb Hall]. cbn [a_next a_wait a_inq a_up app] in *. split; [exact Hb|].
+      * destruct (Ih _ Hc0) as [Hb Hall]. simp_a. cbn [app] in *. split; [exact Hb|].
         intros p Hp. apply Hall. right; exact Hp.
     + apply (hol_step _ _ _ eq_refl I).
-      * intros c0 Hc0 p Hp. cbn [a_wait a_inq app] in Hp.
+      * intros c0 Hc0 p Hp. simp_a. cbn [app] in Hp.
         assert (c0 = c) as -> by (destruct f; inversion Hc0; reflexivity).
-        apply (sorted_mid_le (entered_of t) c (q ++ u) p Hs). destruct Hp as [->|Hp]; [left; reflexivity|].
-        right. apply in_or_app; left; exact Hp.
+        apply (sorted_mid_le (entered_of t) c (d ++ q ++ u) p Hs).
+        destruct Hp as [->|Hp]; [left; reflexivity|].
+        right. rewrite !in_app_iff in *. tauto.
       * intros c0 Hc0. exfalso; eapply fin_event_not_queued; eauto.
-    + intros c0 Hc0. destruct (ai_all _ I c0 Hc0) as [H|[H|H]].
-      * unfold apipe in H; cbn [a_trace a_wait a_inq a_up app] in H. apply (pipe_all_finish f); exact H.
+    + intros c0 Hc0. destruct (Iall c0 Hc0) as [H|[H|H]].
+      * simp_a. cbn [app] in H. apply (pipe_all_finish f); exact H.
       * right; left; right; exact H.
       * right; right; right; exact H.
+    + exact Ilost.
+  - (* the queued deliveries are dropped *)
+    split; simp_a.
+    + cbn [app]. rewrite <- app_assoc. exact Isub.
+    + exact Iwait.
+    + intros c0 H. destruct (Iq _ H) as [H'|H']; [left; exact H'|]. right. simp_a.
+      rewrite !in_app_iff in *. cbn [In]. tauto.
+    + intros c0 Hc. destruct (Ih _ Hc) as [Hb Hall]. simp_a. split; [exact Hb|].
+      intros p Hp. apply Hall. rewrite !in_app_iff in *. cbn [In] in Hp. tauto.
+    + exact Ihol.
+    + intros c0 Hc0. destruct (Iall c0 Hc0) as [H|H]; [|right; exact H].
+      left. simp_a. rewrite !in_app_iff in *. cbn [In]. tauto.
+    + discriminate.
+  - (* lost, nothing dropped *)
+    split; simp_a.
+    + exact Isub.
+    + exact Iwait.
+    + exact Iq.
+    + exact Ih.
+    + exact Ihol.
+    + exact Iall.
+    + discriminate.
 Qed.
 
 (* ------------------------------------------------------------------ *)
@@ -398,8 +445,8 @@ Lemma effs_preserves a b : effs a b -> AInv a -> AInv b.
 Proof. intros H; induction H; intros I; [exact I|]. apply IHeffs. eapply eff_preserves; eauto. Qed.
 
 Ltac simpl_abs :=
-  unfold abs, upstream, inq_ids, cur_ids, finish_call, ids;
-  cbn [next_id sendq cur wire inq waiting evq trace].
+  unfold abs, upstream, inq_ids, wait_ids, cur_ids, finish_call, ids;
+  cbn [next_id sendq cur wire inq waiting evq trace lost dropped].
 
 Lemma pump_abs f s : abs (pump f s) = abs s.
 Proof.
@@ -414,8 +461,8 @@ Qed.
 Lemma issue_eff st f s : eff (abs s) (abs (issue st f s)).
 Proof.
   unfold issue. rewrite sendq_put.
-  set (s1 := mk (S (next_id s)) _ _ _ _ _ _ _).
-  assert (E : abs s1 = amk (S (next_id s)) (ids (waiting s)) (inq_ids s) (upstream s ++ [next_id s]) (trace s)).
+  set (s1 := mk (S (next_id s)) _ _ _ _ _ _ _ _ _).
+  assert (E : abs s1 = amk (S (next_id s)) (wait_ids s) (ids (dropped s)) (inq_ids s) (upstream s ++ [next_id s]) (trace s) (lost s)).
   { subst s1. simpl_abs. f_equal. rewrite map_app. cbn [map cid]. rewrite !app_assoc. reflexivity. }
   match goal with |- context [if ?b then _ else _] => destruct b end; rewrite ?pump_abs, E; apply E_issue.
 Qed.
@@ -430,11 +477,12 @@ Qed.
 
 Lemma deliver_eff s : eff (abs s) (abs (deliver s)).
 Proof.
-  unfold deliver. destruct (wire s) as [|c w] eqn:Ew; [apply E_none|].
+  unfold deliver. destruct (lost s) eqn:El; [apply E_none|].
+  destruct (wire s) as [|c w] eqn:Ew; [apply E_none|].
   assert (Eu : upstream s = cid c :: (ids w ++ cur_ids s ++ ids (sendq s))).
   { unfold upstream. rewrite Ew. reflexivity. }
   unfold abs at 1. rewrite Eu.
-  destruct (cfate c) eqn:Ef; rewrite ?inq_put; simpl_abs; rewrite ?map_app; cbn [map fst];
+  destruct (cfate c) eqn:Ef; rewrite ?inq_put; simpl_abs; rewrite ?El, ?map_app; cbn [map fst];
     try apply E_queue; apply E_reject.
 Qed.
 
@@ -443,16 +491,20 @@ Proof. destruct b; reflexivity. Qed.
 
 Lemma wait_len s : AInv (abs s) -> waiting s = [] \/ exists x, waiting s = [x].
 Proof.
-  intros I. pose proof (ai_wait _ I) as H. unfold abs in H; cbn [a_wait] in H. unfold ids in H. rewrite map_length in H.
+  intros I. pose proof (ai_wait _ I) as H. unfold abs in H; cbn [a_wait] in H. unfold wait_ids, ids in H. rewrite !map_length in H.
   destruct (waiting s) as [|x [|y l]]; [left; reflexivity | right; eexists; reflexivity | cbn in H; lia].
 Qed.
 
 Lemma do_next_eff s : AInv (abs s) -> eff (abs s) (abs (do_next s)).
 Proof.
-  intros I. unfold do_next, blocked. rewrite hol_is_blocking.
+  intros I. unfold do_next, blocked. rewrite hol_is_blocking, loss_stops_dequeue. cbn [andb].
+  destruct (lost s) eqn:El; [apply E_none|].
+  assert (Ed : dropped s = []).
+  { pose proof (ai_lost _ I) as H. unfold abs in H; cbn [a_lost a_drop] in H. specialize (H El).
+    unfold ids in H. destruct (dropped s); [reflexivity | discriminate H]. }
   destruct (wait_len s I) as [Ew|[x Ew]]; rewrite Ew; cbn [is_nil negb]; [|apply E_none].
   rewrite inq_take. destruct (inq s) as [|[c r] rest] eqn:Ei; [apply E_none|].
-  destruct r; simpl_abs; rewrite ?Ew, ?Ei; cbn [map fst app].
+  destruct r; simpl_abs; rewrite ?Ew, ?Ei, ?Ed, ?El; cbn [map fst app].
   - rewrite fin_if. apply E_finish_inq.
   - apply E_hold.
   - cbn [andb]. apply (E_finish_inq _ _ _ _ _ FinFailed).
@@ -462,18 +514,37 @@ Lemma inq_ids_map (g : call * rdy -> call * rdy) l :
   (forall e, fst (g e) = fst e) -> map fst (map g l) = map fst l.
 Proof. intros Hg. rewrite map_map. apply map_ext. exact Hg. Qed.
 
+Definition sw_part (s : state) := (cur s, sendq s, wire s).
+
 Lemma gift_ready_eff k ok s : AInv (abs s) -> eff (abs s) (abs (gift_ready k ok s)).
 Proof.
-  intros I. unfold gift_ready.
+  intros I. unfold gift_ready. set (ok' := ok && _).
   assert (Hmap : forall l : list (call * rdy),
-            map fst (map (fun e => if (cid (fst e) =? k) && is_pending (snd e)
-                                   then (fst e, if ok then Ready else Broken) else e) l) = map fst l).
-  { intros l. apply inq_ids_map. intros e. destruct ((cid (fst e) =? k) && is_pending (snd e)); reflexivity. }
-  destruct (wait_len s I) as [Ew|[x Ew]]; rewrite Ew; cbn [find filter].
+            map fst (map (fun e => if cid (fst e) =? k then (fst e, step_rdy ok' (snd e)) else e) l) = map fst l).
+  { intros l. apply inq_ids_map. intros e. destruct (cid (fst e) =? k); reflexivity. }
+  destruct (wait_len s I) as [Ew|[[x gx] Ew]]; rewrite Ew; cbn [find filter map fst].
   - simpl_abs. rewrite Hmap, Ew. apply E_none.
   - destruct (cid x =? k) eqn:Ek; cbn [negb].
-    + simpl_abs. rewrite Ew. cbn [map]. rewrite fin_if. apply E_finish_wait.
+    + destruct (g_out (gift_fire ok' gx)) as [r|].
+      * simpl_abs. rewrite Ew. cbn [map fst]. rewrite fin_if. apply E_finish_wait.
+      * simpl_abs. rewrite Ew. cbn [map fst]. apply E_none.
     + simpl_abs. rewrite Hmap, Ew. apply E_none.
+Qed.
+
+(* what gift_ready leaves alone *)
+Lemma gift_ready_parts k ok s :
+  next_id (gift_ready k ok s) = next_id s /\ sw_part (gift_ready k ok s) = sw_part s /\ lost (gift_ready k ok s) = lost s.
+Proof.
+  unfold gift_ready. destruct (find _ (waiting s)) as [[c g]|]; [|repeat split].
+  destruct (g_out _); repeat split.
+Qed.
+
+Lemma disconnect_eff s : eff (abs s) (abs (disconnect s)).
+Proof.
+  unfold disconnect. destruct (lost s) eqn:El; [apply E_none|].
+  destruct finish_clears_inq.
+  - unfold abs at 2. simpl_abs. unfold abs. rewrite El. rewrite map_app. apply E_drop.
+  - unfold abs at 2. simpl_abs. unfold abs. rewrite El. apply E_lose.
 Qed.
 
 Lemma thunks_effs batch : forall s, AInv (abs s) -> effs (abs s) (abs (fold_left run_thunk batch s)).
@@ -485,7 +556,7 @@ Proof.
 Qed.
 
 Lemma turn_effs s : AInv (abs s) -> effs (abs s) (abs (turn s)).
-Proof. intros I. unfold turn. apply (thunks_effs _ (mk _ _ _ _ _ _ [] _)). exact I. Qed.
+Proof. intros I. unfold turn. apply (thunks_effs _ (mk _ _ _ _ _ _ [] _ _ _)). exact I. Qed.
 
 Lemma step_effs s o : AInv (abs s) -> effs (abs s) (abs (step s o)).
 Proof.
@@ -495,6 +566,7 @@ Proof.
   - apply effs_one, deliver_eff.
   - apply effs_one, gift_ready_eff; exact I.
   - apply turn_effs; exact I.
+  - apply effs_one, disconnect_eff.
 Qed.
 
 Lemma run_from_inv ops : forall s, AInv (abs s) -> AInv (abs (fold_left step ops s)).
@@ -541,18 +613,34 @@ Proof.
   destruct (ai_hol _ (run_inv ops) _ _ _ c' Et Hlt Hq) as [H|H]; [left|right]; apply in_rev; exact H.
 Qed.
 
-(* nothing is dropped silently: every issued call is entered, still on its way, or was refused *)
+(* nothing is dropped silently: every issued call is entered, still on its way, was refused, or was queued on the
+   receiver when it lost the connection *)
 Theorem no_silent_loss ops c :
   c < next_id (run ops) ->
   In c (entered (run ops)) \/ In c (pipeline (run ops)) \/
-  In (Failed c) (history (run ops)) \/ In (Rejected c) (history (run ops)).
+  In (Failed c) (history (run ops)) \/ In (Rejected c) (history (run ops)) \/ In c (ids (dropped (run ops))).
 Proof.
   intros H. destruct (ai_all _ (run_inv ops) c H) as [Hp|[Hf|Hr]].
-  - unfold apipe, abs in Hp. cbn [a_trace a_wait a_inq a_up] in Hp. unfold pipeline, entered.
+  - unfold apipe, abs in Hp. cbn [a_trace a_wait a_drop a_inq a_up] in Hp. unfold pipeline, entered.
     rewrite !in_app_iff in *. tauto.
   - right; right; left. unfold history. rewrite <- in_rev. exact Hf.
-  - right; right; right. unfold history. rewrite <- in_rev. exact Hr.
+  - right; right; right; left. unfold history. rewrite <- in_rev. exact Hr.
 Qed.
+
+(* dropped deliveries exist only after the loss of the connection *)
+Theorem dropped_only_after_loss ops : lost (run ops) = false -> dropped (run ops) = [].
+Proof.
+  intros H. pose proof (ai_lost _ (run_inv ops) H) as E. unfold abs, ids in E; cbn [a_drop] in E.
+  destruct (dropped (run ops)); [reflexivity | discriminate E].
+Qed.
+
+(* everything that has been entered precedes, in issue order, everything that is still on its way: the waiting
+   delivery, the dropped ones, the inbound queue, the wire, the call being serialized (possibly paused inside a streaming
+   argument) and the calls queued behind it on the sender *)
+Theorem whole_path_in_issue_order ops :
+  StronglySorted lt (entered (run ops) ++ wait_ids (run ops) ++ ids (dropped (run ops)) ++ inq_ids (run ops) ++
+                     ids (wire (run ops)) ++ cur_ids (run ops) ++ ids (sendq (run ops))).
+Proof. exact (apipe_sorted _ (run_inv ops)). Qed.
 
 (* the receiver holds at most one dequeued call that is not yet ready *)
 Theorem one_waiting ops : List.length (waiting (run ops)) <= 1.
@@ -564,7 +652,7 @@ Proof. pose proof (pump_abs f s) as H. apply (f_equal a_next) in H. exact H. Qed
 
 Lemma do_next_next s : next_id (do_next s) = next_id s.
 Proof.
-  unfold do_next. destruct (blocked s); [reflexivity|].
+  unfold do_next. destruct (checks_disconnected && lost s); [reflexivity|]. destruct (blocked s); [reflexivity|].
   destruct (q_take inq_pop (inq s)) as [[[c r] rest]|]; [|reflexivity]. destruct r; reflexivity.
 Qed.
 
@@ -580,9 +668,10 @@ Proof.
   - unfold issue. match goal with |- context [if ?b then _ else _] => destruct b end;
       rewrite ?pump_next; cbn [next_id]; lia.
   - pose proof (release_abs s) as H. apply (f_equal a_next) in H. cbn [abs a_next] in H. lia.
-  - unfold deliver. destruct (wire s); [lia|]. destruct (cfate c); cbn [next_id]; lia.
-  - unfold gift_ready. destruct (find _ _); cbn [finish_call next_id]; lia.
+  - unfold deliver. destruct (lost s); [lia|]. destruct (wire s); [lia|]. destruct (cfate c); cbn [next_id]; lia.
+  - destruct (gift_ready_parts k ok s) as (-> & _). lia.
   - unfold turn. rewrite thunks_next. cbn [next_id]. lia.
+  - unfold disconnect. destruct (lost s); [lia|]. destruct finish_clears_inq; cbn [next_id]; lia.
 Qed.
 
 Lemma count_issues_cons o ops :
@@ -635,7 +724,7 @@ Definition sender_part (s : state) := (cur s, sendq s).
 
 Lemma do_next_sender s : sender_part (do_next s) = sender_part s.
 Proof.
-  unfold do_next. destruct (blocked s); [reflexivity|].
+  unfold do_next. destruct (checks_disconnected && lost s); [reflexivity|]. destruct (blocked s); [reflexivity|].
   destruct (q_take inq_pop (inq s)) as [[[c r] rest]|]; [|reflexivity]. destruct r; reflexivity.
 Qed.
 
@@ -645,6 +734,15 @@ Proof.
   rewrite IH. destruct t; apply do_next_sender.
 Qed.
 
+Lemma sender_of_sw s s' : sw_part s' = sw_part s -> sender_part s' = sender_part s.
+Proof. unfold sw_part, sender_part. intros E. inversion E. reflexivity. Qed.
+
+Lemma gift_ready_sw k ok s : sw_part (gift_ready k ok s) = sw_part s.
+Proof. apply gift_ready_parts. Qed.
+
+Lemma disconnect_sw s : sw_part (disconnect s) = sw_part s.
+Proof. unfold disconnect. destruct (lost s); [reflexivity|]. destruct finish_clears_inq; reflexivity. Qed.
+
 Lemma sinv_of_sender s s' : sender_part s' = sender_part s -> SInv s -> SInv s'.
 Proof. unfold sender_part, SInv. intros E I H. inversion E as [[E1 E2]]. rewrite E2. apply I. congruence. Qed.
 
@@ -653,9 +751,11 @@ Proof.
   intros I. destruct o; cbn [step].
   - apply issue_sinv; exact I.
   - apply release_sinv; exact I.
-  - apply (sinv_of_sender s); [|exact I]. unfold deliver. destruct (wire s); [reflexivity|]. destruct (cfate c); reflexivity.
-  - apply (sinv_of_sender s); [|exact I]. unfold gift_ready. destruct (find _ _); reflexivity.
+  - apply (sinv_of_sender s); [|exact I]. unfold deliver. destruct (lost s); [reflexivity|].
+    destruct (wire s); [reflexivity|]. destruct (cfate c); reflexivity.
+  - apply (sinv_of_sender s); [|exact I]. apply sender_of_sw, gift_ready_sw.
   - apply (sinv_of_sender s); [|exact I]. unfold turn. rewrite thunks_sender. reflexivity.
+  - apply (sinv_of_sender s); [|exact I]. apply sender_of_sw, disconnect_sw.
 Qed.
 
 Lemma run_from_sinv ops : forall s, SInv s -> SInv (fold_left step ops s).
@@ -671,47 +771,48 @@ Proof. apply (run_from_sinv ops init). intros _. reflexivity. Qed.
    head of the inbound queue when that head is ready. *)
 
 Lemma turn_enters_ready_head s c rest :
-  waiting s = [] -> inq s = (c, Ready) :: rest -> evq s <> [] -> is_late c = false ->
+  lost s = false -> waiting s = [] -> inq s = (c, Ready) :: rest -> evq s <> [] -> is_late c = false ->
   In (cid c) (entered (turn s)).
 Proof.
-  intros Ew Ei Ev Hl. unfold turn. destruct evq_is_fifo as [_ ->].
+  intros El Ew Ei Ev Hl. unfold turn. destruct evq_is_fifo as [_ ->].
   destruct (evq s) as [|t b]; [congruence|]. destruct t. cbn [fold_left run_thunk].
-  set (s0 := mk _ _ _ _ _ _ _ _).
+  set (s0 := mk _ _ _ _ _ _ _ _ _ _).
   assert (E : In (cid c) (entered (do_next s0))).
-  { unfold do_next, blocked. rewrite hol_is_blocking. subst s0. cbn [waiting inq]. rewrite Ew. cbn [is_nil negb].
+  { unfold do_next, blocked. rewrite hol_is_blocking. subst s0. cbn [waiting inq lost]. rewrite Ew, El, andb_false_r. cbn [is_nil negb].
     rewrite inq_take, Ei. unfold finish_call, entered. cbn [trace]. rewrite Hl. cbn [andb negb entered_of].
     apply in_or_app; right; left; reflexivity. }
   clearbody s0. revert E. generalize (do_next s0). clear.
   induction b as [|t b IH]; intros s E; cbn [fold_left]; [exact E|].
   apply IH. destruct t; cbn [run_thunk]. unfold entered in *.
-  unfold do_next. destruct (blocked s); [exact E|].
+  unfold do_next. destruct (checks_disconnected && lost s); [exact E|]. destruct (blocked s); [exact E|].
   destruct (q_take inq_pop (inq s)) as [[[c' r] rest]|]; [|exact E].
   destruct r; unfold finish_call; cbn [trace]; try exact E;
     destruct (_ && _); cbn [entered_of]; try exact E; apply in_or_app; left; exact E.
 Qed.
 
 (* the receiver is never stuck: if a call is queued and none is waiting for its arguments, a doNextCall is scheduled *)
-Definition RInv (s : state) : Prop := inq s <> [] -> waiting s = [] -> evq s <> [].
+Definition RInv (s : state) : Prop := lost s = false -> inq s <> [] -> waiting s = [] -> evq s <> [].
 
-Definition receiver_part (s : state) := (inq s, waiting s, evq s).
+Definition receiver_part (s : state) := (inq s, waiting s, evq s, lost s).
 
 Lemma rinv_of_receiver s s' : receiver_part s' = receiver_part s -> RInv s -> RInv s'.
-Proof. unfold receiver_part, RInv. intros E I. inversion E as [[E1 E2 E3]]. rewrite E1, E2, E3. exact I. Qed.
+Proof. unfold receiver_part, RInv. intros E I. inversion E as [[E1 E2 E3 E4]]. rewrite E1, E2, E3, E4. exact I. Qed.
 
 Lemma evq_put_nonempty (t : thunk) l : q_put evq_push t l <> [].
 Proof. destruct evq_push; cbn [q_put]; [destruct l|]; discriminate. Qed.
 
 Lemma do_next_rinv s : RInv (do_next s).
 Proof.
-  unfold do_next, blocked. rewrite hol_is_blocking.
+  unfold do_next, blocked. rewrite hol_is_blocking, loss_stops_dequeue. cbn [andb].
+  destruct (lost s) eqn:El; [intros H; congruence|].
   destruct (waiting s) as [|x w] eqn:Ew; cbn [is_nil negb].
   - rewrite inq_take. destruct (inq s) as [|[c r] rest] eqn:Ei.
-    + intros H; rewrite Ei in H; congruence.
-    + destruct r; unfold RInv, finish_call; cbn [inq waiting evq]; intros _ H.
+    + intros _ H; rewrite Ei in H; congruence.
+    + destruct r; unfold RInv, finish_call; cbn [inq waiting evq]; intros _ _ H.
       * apply evq_put_nonempty.
       * cbn in H. discriminate.
       * apply evq_put_nonempty.
-  - intros _ H. rewrite Ew in H. discriminate.
+  - intros _ _ H. rewrite Ew in H. discriminate.
 Qed.
 
 Lemma pump_receiver f : forall s, receiver_part (pump f s) = receiver_part s.
@@ -727,6 +828,16 @@ Proof.
   destruct t; cbn [run_thunk]. apply do_next_rinv.
 Qed.
 
+Lemma gift_ready_rinv k ok s : RInv s -> RInv (gift_ready k ok s).
+Proof.
+  intros I. unfold gift_ready. destruct (find _ (waiting s)) as [[c g]|] eqn:Ef.
+  - destruct (g_out _).
+    + intros _ _ _. unfold finish_call. cbn [evq]. apply evq_put_nonempty.
+    + unfold RInv. cbn [inq waiting evq lost]. intros _ _ H2. apply map_eq_nil in H2. rewrite H2 in Ef. discriminate Ef.
+  - unfold RInv. cbn [inq waiting evq lost]. intros H0 H1 H2. apply I; [exact H0| |exact H2].
+    intros E. rewrite E in H1. cbn in H1. congruence.
+Qed.
+
 Lemma step_rinv s o : RInv s -> RInv (step s o).
 Proof.
   intros I. destruct o; cbn [step].
@@ -734,25 +845,27 @@ Proof.
     match goal with |- context [if ?b then _ else _] => destruct b end; rewrite ?pump_receiver; reflexivity.
   - apply (rinv_of_receiver s); [|exact I]. unfold release.
     destruct (cur s) as [[c [|[|m]]]|]; rewrite ?pump_receiver; reflexivity.
-  - unfold deliver. destruct (wire s) as [|c w]; [exact I|].
-    destruct (cfate c); try (intros _ _; cbn [evq]; apply evq_put_nonempty).
-    apply (rinv_of_receiver s); [reflexivity | exact I].
-  - unfold gift_ready. destruct (find _ _) as [c|].
-    + intros _ _. unfold finish_call. cbn [evq]. apply evq_put_nonempty.
-    + unfold RInv. cbn [inq waiting evq]. intros H1 H2. apply I; [|exact H2].
-      intros E. rewrite E in H1. cbn in H1. congruence.
+  - unfold deliver. destruct (lost s) eqn:El; [exact I|]. destruct (wire s) as [|c w]; [exact I|].
+    destruct (cfate c); try (intros _ _ _; cbn [evq]; apply evq_put_nonempty).
+    apply (rinv_of_receiver s); [unfold receiver_part; cbn [inq waiting evq lost]; rewrite El; reflexivity | exact I].
+  - apply gift_ready_rinv; exact I.
   - unfold turn. destruct evq_is_fifo as [_ ->].
     destruct (evq s) as [|t b] eqn:Ev.
-    + cbn [fold_left]. unfold RInv. cbn [inq waiting evq]. intros H1 H2. pose proof (I H1 H2) as H3. congruence.
+    + cbn [fold_left]. unfold RInv. cbn [inq waiting evq lost]. intros H0 H1 H2. pose proof (I H0 H1 H2) as H3. congruence.
     + apply thunks_rinv. discriminate.
+  - unfold disconnect. destruct (lost s) eqn:El; [exact I|].
+    destruct finish_clears_inq; intros H; cbn [lost] in H; discriminate H.
 Qed.
 
 Lemma run_from_rinv ops : forall s, RInv s -> RInv (fold_left step ops s).
 Proof. induction ops as [|o ops IH]; intros s I; cbn [fold_left]; [exact I|]. apply IH, step_rinv, I. Qed.
 
+Lemma RInv_init : RInv init.
+Proof. intros _ H; cbn in H; congruence. Qed.
+
 Theorem receiver_never_stuck ops :
-  inq (run ops) <> [] -> waiting (run ops) = [] -> evq (run ops) <> [].
-Proof. apply (run_from_rinv ops init). intros H; cbn in H; congruence. Qed.
+  lost (run ops) = false -> inq (run ops) <> [] -> waiting (run ops) = [] -> evq (run ops) <> [].
+Proof. apply (run_from_rinv ops init). apply RInv_init. Qed.
 
 (* ------------------------------------------------------------------ *)
 (* every reachable state can be settled: releasing the stalls, delivering the bytes, resolving the gifts and
@@ -792,29 +905,209 @@ Proof.
     + exists 0. cbn. split; [exact Ec | apply I; exact Ec].
 Qed.
 
-Lemma deliver_sender s : cur (deliver s) = cur s /\ sendq (deliver s) = sendq s /\ wire (deliver s) = tl (wire s).
+(* ---- the Deferred network of a delivery: `live m g` = m third-party references are unresolved, none has failed *)
+Definition live (m : nat) (g : gnet) : Prop :=
+  1 <= m /\ g_nunref g = Z.of_nat m /\ g_has_all g = true /\ g_r1 g = (Z.of_nat m + 1)%Z /\ g_f1 g = false /\
+  g_r2 g = 1%Z /\ g_f2 g = false /\ g_out g = None /\ g_left g = m.
+
+Ltac zb := repeat match goal with
+  | |- context [Z.eqb ?a ?b] => destruct (Z.eqb_spec a b); try lia
+  | |- context [Z.leb ?a ?b] => destruct (Z.leb_spec a b); try lia
+  | |- context [Z.ltb ?a ?b] => destruct (Z.ltb_spec a b); try lia
+  end.
+
+Lemma live_init n : 1 <= n -> live n (gnet_init n).
 Proof.
-  unfold deliver. destruct (wire s) as [|c0 w] eqn:Ew.
+  intros H. unfold live, gnet_init, and_init, and_init_full, args_close_has_all, args_close_dl_len.
+  cbn [g_nunref g_has_all g_r1 g_f1 g_r2 g_f2 g_out g_left].
+  repeat split; try lia; zb; cbn [negb fst snd] in *; try reflexivity; try lia.
+Qed.
+
+Ltac crunch := repeat (first [progress zb | progress cbn [negb andb orb fst snd g_nunref g_has_all g_r1 g_f1 g_r2 g_f2 g_out g_left pred] in *]);
+  repeat split; try reflexivity; try lia.
+
+Ltac fire_unfold :=
+  unfold gift_fire, update_child, update_child_full, and_apply, and_cb;
+  cbn [g_nunref g_has_all g_r1 g_f1 g_r2 g_f2 g_out g_left fst snd].
+
+Lemma fire_true_more m g : live (S (S m)) g -> live (S m) (gift_fire true g).
+Proof.
+  intros (H1 & H2 & H3 & H4 & H5 & H6 & H7 & H8 & H9). unfold live. fire_unfold.
+  rewrite H2, H3, H4, H5, H6, H7, H8, H9.
+  crunch.
+Qed.
+
+Lemma fire_true_last g : live 1 g -> g_out (gift_fire true g) = Some true /\ g_left (gift_fire true g) = 0.
+Proof.
+  intros (H1 & H2 & H3 & H4 & H5 & H6 & H7 & H8 & H9). fire_unfold.
+  rewrite H2, H3, H4, H5, H6, H7, H8, H9.
+  crunch.
+Qed.
+
+Lemma fire_false m g : live m g -> g_out (gift_fire false g) = Some false /\ g_left (gift_fire false g) = pred m.
+Proof.
+  intros (H1 & H2 & H3 & H4 & H5 & H6 & H7 & H8 & H9). fire_unfold.
+  rewrite H2, H3, H4, H5, H6, H7, H8, H9.
+  crunch.
+Qed.
+
+Lemma fire_out_stable ok g r : g_out g = Some r -> g_out (gift_fire ok g) = Some r.
+Proof.
+  intros H. unfold gift_fire. destruct (update_child _ _) as [nun fa]. cbn [g_out]. rewrite H. reflexivity.
+Qed.
+
+Lemma gifts_run_out_stable rs : forall g r, g_out g = Some r -> g_out (gifts_run rs g) = Some r.
+Proof. induction rs as [|x rs IH]; intros g r H; cbn [gifts_run]; [exact H|]. apply IH, fire_out_stable, H. Qed.
+
+(* "a delivery becomes runnable exactly when all its third-party references have resolved": after the results rs of
+   the first |rs| <= m references, the delivery's ready_deferred has fired with a failure iff one of them failed, with
+   success iff all m have resolved, and not at all otherwise -- for every m and every rs *)
+Theorem gifts_all_or_first_failure : forall rs m g, live m g -> List.length rs <= m ->
+  g_out (gifts_run rs g) =
+    if forallb (fun b => b) rs then (if List.length rs =? m then Some true else None) else Some false.
+Proof.
+  induction rs as [|r rs IH]; intros m g L Hl.
+  - cbn [gifts_run forallb List.length]. destruct L as (H1 & _ & _ & _ & _ & _ & _ & H8 & _).
+    destruct m; [lia|]. cbn [Nat.eqb]. exact H8.
+  - cbn [gifts_run forallb List.length] in *. destruct r; cbn [andb].
+    + destruct m as [|[|m]]; [destruct L; lia | |].
+      * destruct rs; [|cbn in Hl; lia]. cbn [gifts_run forallb List.length Nat.eqb]. apply fire_true_last, L.
+      * rewrite (IH (S m) _ (fire_true_more _ _ L)); [|lia]. reflexivity.
+    + apply gifts_run_out_stable. apply (fire_false m g L).
+Qed.
+
+Lemma fire_none_live ok m g : live m g -> g_out (gift_fire ok g) = None -> exists m', live m' (gift_fire ok g).
+Proof.
+  intros L H. destruct ok.
+  - destruct m as [|[|m]]; [destruct L; lia | |].
+    + destruct (fire_true_last g L) as [E _]. congruence.
+    + eexists. apply fire_true_more, L.
+  - destruct (fire_false m g L) as [E _]. congruence.
+Qed.
+
+(* every delivery that is not ready holds a live network *)
+Definition GInv (s : state) : Prop :=
+  (forall c g, In (c, g) (waiting s) -> exists m, live m g) /\
+  (forall c g, In (c, Pending g) (inq s) -> exists m, live m g).
+
+Lemma ginv_of_receiver s s' : receiver_part s' = receiver_part s -> GInv s -> GInv s'.
+Proof. unfold receiver_part, GInv. intros E I. inversion E as [[E1 E2 E3 E4]]. rewrite E1, E2. exact I. Qed.
+
+Lemma do_next_ginv s : GInv s -> GInv (do_next s).
+Proof.
+  intros [Iw Iq]. unfold do_next. destruct (checks_disconnected && lost s); [split; assumption|].
+  destruct (blocked s); [split; assumption|]. rewrite inq_take.
+  destruct (inq s) as [|[c r] rest] eqn:Ei; [split; [assumption | rewrite Ei; assumption]|].
+  assert (Iq' : forall c0 g, In (c0, Pending g) rest -> exists m, live m g) by (intros c0 g H; eapply Iq; right; exact H).
+  destruct r; unfold finish_call; (split; cbn [waiting inq]; [|exact Iq']); try exact Iw.
+  intros c0 g0 H. apply in_app_or in H. destruct H as [H|[H|[]]]; [eapply Iw; exact H|].
+  inversion H; subst. eapply Iq. left; reflexivity.
+Qed.
+
+Lemma thunks_ginv batch : forall s, GInv s -> GInv (fold_left run_thunk batch s).
+Proof.
+  induction batch as [|t b IH]; intros s I; cbn [fold_left]; [exact I|]. apply IH. destruct t; apply do_next_ginv, I.
+Qed.
+
+Lemma gift_ready_ginv k ok s : GInv s -> GInv (gift_ready k ok s).
+Proof.
+  intros [Iw Iq]. unfold gift_ready. set (ok' := ok && _).
+  destruct (find _ (waiting s)) as [[c g]|] eqn:Ef.
+  - apply find_some in Ef. destruct Ef as [Hin _]. destruct (Iw _ _ Hin) as [m L].
+    destruct (g_out (gift_fire ok' g)) eqn:Eo.
+    + unfold finish_call. split; cbn [waiting inq]; [|exact Iq].
+      intros c0 g0 H. apply filter_In in H. eapply Iw, H.
+    + destruct (fire_none_live ok' m g L Eo) as [m' L'].
+      split; cbn [waiting inq]; [|exact Iq].
+      intros c0 g0 H. apply in_map_iff in H. destruct H as [[c1 g1] [E H]]. cbn [fst] in E.
+      destruct (cid c1 =? k); inversion E; subst; [exists m'; exact L' | eapply Iw; exact H].
+  - split; cbn [waiting inq]; [exact Iw|].
+    intros c0 g0 H. apply in_map_iff in H. destruct H as [[c1 r1] [E H]]. cbn [fst snd] in E.
+    destruct (cid c1 =? k); [|inversion E; subst; eapply Iq; exact H].
+    destruct r1 as [|g1|]; cbn [step_rdy] in E; try discriminate E.
+    destruct (Iq _ _ H) as [m L].
+    destruct (g_out (gift_fire ok' g1)) as [[|]|] eqn:Eo; inversion E; subst.
+    eapply fire_none_live; eauto.
+Qed.
+
+Lemma step_ginv s o : GInv s -> GInv (step s o).
+Proof.
+  intros I. destruct o; cbn [step].
+  - apply (ginv_of_receiver s); [|exact I]. unfold issue.
+    match goal with |- context [if ?b then _ else _] => destruct b end; rewrite ?pump_receiver; reflexivity.
+  - apply (ginv_of_receiver s); [|exact I]. unfold release.
+    destruct (cur s) as [[c [|[|m]]]|]; rewrite ?pump_receiver; reflexivity.
+  - unfold deliver. destruct (lost s); [exact I|]. destruct (wire s) as [|c w]; [exact I|].
+    destruct I as [Iw Iq].
+    destruct (cfate c) as [|n| |] eqn:Ef; try (split; [exact Iw | exact Iq]);
+      (split; cbn [waiting inq]; [exact Iw|]); rewrite inq_put; intros c0 g0 H; apply in_app_or in H;
+      (destruct H as [H|[H|[]]]; [eapply Iq; exact H|]); try discriminate H.
+    destruct n; cbn [rdy_on_arrival] in H; [discriminate H|]. inversion H; subst.
+    eexists. apply live_init. lia.
+  - apply gift_ready_ginv, I.
+  - unfold turn. apply thunks_ginv. exact I.
+  - unfold disconnect. destruct (lost s); [exact I|]. destruct I as [Iw Iq].
+    destruct finish_clears_inq; (split; cbn [waiting inq]; [exact Iw|]); [intros c g []|exact Iq].
+Qed.
+
+Lemma run_from_ginv ops : forall s, GInv s -> GInv (fold_left step ops s).
+Proof. induction ops as [|o ops IH]; intros s I; cbn [fold_left]; [exact I|]. apply IH, step_ginv, I. Qed.
+
+Lemma GInv_init : GInv init.
+Proof. split; intros c g []. Qed.
+
+(* the ops that settle a state keep the connection *)
+Definition settle_op (o : op) : Prop :=
+  match o with Issue _ _ => False | GiftReady _ false => False | Disconnect => False | _ => True end.
+
+Lemma thunks_lost batch : forall s, lost (fold_left run_thunk batch s) = lost s.
+Proof.
+  induction batch as [|t b IH]; intros s; cbn [fold_left]; [reflexivity|]. rewrite IH. destruct t; cbn [run_thunk].
+  unfold do_next. destruct (checks_disconnected && lost s); [reflexivity|]. destruct (blocked s); [reflexivity|].
+  destruct (q_take inq_pop (inq s)) as [[[c r] rest]|]; [|reflexivity]. destruct r; reflexivity.
+Qed.
+
+Lemma pump_lost f : forall s, lost (pump f s) = lost s.
+Proof. intros s. pose proof (pump_receiver f s) as H. unfold receiver_part in H. inversion H. reflexivity. Qed.
+
+Lemma settle_step_lost s o : settle_op o -> lost (step s o) = lost s.
+Proof.
+  destruct o; cbn [settle_op step]; intros H; try destruct H.
+  - unfold release. destruct (cur s) as [[c [|[|m]]]|]; rewrite ?pump_lost; reflexivity.
+  - unfold deliver. destruct (lost s) eqn:El; [exact El|]. destruct (wire s); [exact El|]. destruct (cfate c); reflexivity.
+  - apply gift_ready_parts.
+  - unfold turn. rewrite thunks_lost. reflexivity.
+Qed.
+
+Lemma settle_run_lost more : forall s, Forall settle_op more -> lost (fold_left step more s) = lost s.
+Proof.
+  induction more as [|o more IH]; intros s H; cbn [fold_left]; [reflexivity|].
+  inversion H; subst. rewrite IH; [apply settle_step_lost|]; assumption.
+Qed.
+
+Lemma deliver_sender s : lost s = false ->
+  cur (deliver s) = cur s /\ sendq (deliver s) = sendq s /\ wire (deliver s) = tl (wire s).
+Proof.
+  intros El. unfold deliver. rewrite El. destruct (wire s) as [|c0 w] eqn:Ew.
   - rewrite Ew. repeat split; reflexivity.
   - destruct (cfate c0); cbn [cur sendq wire tl]; repeat split; reflexivity.
 Qed.
 
-Lemma drain_wire : forall n s, List.length (wire s) <= n -> cur s = None -> sendq s = [] ->
+Lemma drain_wire : forall n s, lost s = false -> List.length (wire s) <= n -> cur s = None -> sendq s = [] ->
   exists k, let s' := fold_left step (repeat Deliver k) s in cur s' = None /\ sendq s' = [] /\ wire s' = [].
 Proof.
-  induction n as [|n IH]; intros s Hl Hc Hq.
+  induction n as [|n IH]; intros s El Hl Hc Hq.
   - exists 0. cbn. destruct (wire s); [auto | cbn in Hl; lia].
   - destruct (wire s) as [|c w] eqn:Ew; [exists 0; cbn; auto|].
-    destruct (deliver_sender s) as (E1 & E2 & E3).
-    destruct (IH (deliver s)) as [k Hk]; [rewrite E3, Ew; cbn in *; lia | congruence | congruence |].
+    destruct (deliver_sender s El) as (E1 & E2 & E3).
+    destruct (IH (deliver s)) as [k Hk];
+      [exact (eq_trans (settle_step_lost s Deliver Logic.I) El) | rewrite E3, Ew; cbn in *; lia | congruence | congruence |].
     exists (S k). cbn [repeat fold_left step]. exact Hk.
 Qed.
 
-Definition sw_part (s : state) := (cur s, sendq s, wire s).
-
 Lemma do_next_sw s : sw_part (do_next s) = sw_part s.
 Proof.
-  unfold do_next. destruct (blocked s); [reflexivity|].
+  unfold do_next. destruct (checks_disconnected && lost s); [reflexivity|]. destruct (blocked s); [reflexivity|].
   destruct (q_take inq_pop (inq s)) as [[[c r] rest]|]; [|reflexivity]. destruct r; reflexivity.
 Qed.
 
@@ -824,20 +1117,29 @@ Proof.
   rewrite IH. destruct t; apply do_next_sw.
 Qed.
 
-Definition rmeasure (s : state) : nat := 2 * List.length (inq s) + List.length (waiting s).
+(* what is left to do on the receiver: two steps per queued delivery (dequeue, finish), one per waiting delivery, and one
+   per unresolved third-party reference *)
+Definition rleft (r : rdy) : nat := match r with Pending g => g_left g | _ => 0 end.
+Definition rmeasure (s : state) : nat :=
+  list_sum (map (fun e => 2 + rleft (snd e)) (inq s)) + list_sum (map (fun e => 1 + g_left (snd e)) (waiting s)).
+
+Lemma list_sum_app l1 l2 : list_sum (l1 ++ l2) = list_sum l1 + list_sum l2.
+Proof. induction l1 as [|x l IH]; cbn [app list_sum fold_right] in *; [reflexivity|]. unfold list_sum in *. cbn [fold_right]. lia. Qed.
 
 Lemma do_next_measure s : rmeasure (do_next s) <= rmeasure s.
 Proof.
-  unfold do_next. destruct (blocked s); [lia|]. rewrite inq_take.
+  unfold do_next. destruct (checks_disconnected && lost s); [lia|]. destruct (blocked s); [lia|]. rewrite inq_take.
   destruct (inq s) as [|[c r] rest] eqn:Ei; [lia|].
-  destruct r; unfold rmeasure, finish_call; cbn [inq waiting]; rewrite ?Ei, ?app_length; cbn [List.length]; lia.
+  destruct r; unfold rmeasure, finish_call; cbn [inq waiting]; rewrite ?Ei, ?map_app, ?list_sum_app;
+    unfold list_sum; cbn [map fold_right snd rleft]; lia.
 Qed.
 
-Lemma do_next_measure_strict s : waiting s = [] -> inq s <> [] -> rmeasure (do_next s) < rmeasure s.
+Lemma do_next_measure_strict s : lost s = false -> waiting s = [] -> inq s <> [] -> rmeasure (do_next s) < rmeasure s.
 Proof.
-  intros Ew Hi. unfold do_next, blocked. rewrite hol_is_blocking, Ew. cbn [is_nil negb]. rewrite inq_take.
+  intros El Ew Hi. unfold do_next, blocked. rewrite hol_is_blocking, Ew, El, andb_false_r. cbn [is_nil negb]. rewrite inq_take.
   destruct (inq s) as [|[c r] rest] eqn:Ei; [congruence|].
-  destruct r; unfold rmeasure, finish_call; cbn [inq waiting]; rewrite ?Ei, ?Ew, ?app_length; cbn [List.length]; lia.
+  destruct r; unfold rmeasure, finish_call; cbn [inq waiting]; rewrite ?Ei, ?Ew, ?map_app, ?list_sum_app;
+    unfold list_sum; cbn [map fold_right snd rleft app]; lia.
 Qed.
 
 Lemma thunks_measure batch : forall s, rmeasure (fold_left run_thunk batch s) <= rmeasure s.
@@ -846,73 +1148,88 @@ Proof.
   etransitivity; [apply IH|]. destruct t; apply do_next_measure.
 Qed.
 
-Lemma turn_measure s : waiting s = [] -> inq s <> [] -> evq s <> [] -> rmeasure (turn s) < rmeasure s.
+Lemma turn_measure s : lost s = false -> waiting s = [] -> inq s <> [] -> evq s <> [] -> rmeasure (turn s) < rmeasure s.
 Proof.
-  intros Ew Hi He. unfold turn. destruct evq_is_fifo as [_ ->].
+  intros El Ew Hi He. unfold turn. destruct evq_is_fifo as [_ ->].
   destruct (evq s) as [|t b]; [congruence|]. cbn [fold_left]. destruct t; cbn [run_thunk].
   eapply Nat.le_lt_trans; [apply thunks_measure|].
-  set (s0 := mk _ _ _ _ _ _ _ _).
+  set (s0 := mk _ _ _ _ _ _ _ _ _ _).
   assert (E : rmeasure s = rmeasure s0) by reflexivity. rewrite E.
-  apply do_next_measure_strict; subst s0; cbn [waiting inq]; assumption.
+  apply do_next_measure_strict; subst s0; cbn [waiting inq lost]; assumption.
 Qed.
 
-Lemma gift_measure s x : waiting s = [x] -> rmeasure (gift_ready (cid x) true s) < rmeasure s.
+Lemma gift_measure s x g m : lost s = false -> waiting s = [(x, g)] -> live m g ->
+  rmeasure (gift_ready (cid x) true s) < rmeasure s.
 Proof.
-  intros Ew. unfold gift_ready. rewrite Ew. cbn [find filter]. rewrite Nat.eqb_refl. cbn [negb].
-  unfold rmeasure, finish_call. cbn [inq waiting]. rewrite Ew. cbn [List.length]. lia.
+  intros El Ew L. unfold gift_ready. rewrite Ew, El, andb_false_r. cbn [find fst negb andb]. rewrite Nat.eqb_refl.
+  destruct m as [|[|m]]; [destruct L; lia | |].
+  - destruct (fire_true_last g L) as [-> _]. cbn [filter fst negb]. rewrite Nat.eqb_refl. cbn [negb].
+    unfold rmeasure, finish_call. cbn [inq waiting]. rewrite Ew. unfold list_sum. cbn [map fold_right]. lia.
+  - pose proof (fire_true_more m g L) as L'. destruct L' as (_ & _ & _ & _ & _ & _ & _ & Ho & Hl).
+    rewrite Ho. destruct L as (_ & _ & _ & _ & _ & _ & _ & _ & Hl0).
+    unfold rmeasure. cbn [inq waiting map fst snd]. rewrite Ew. cbn [map fst snd]. rewrite Nat.eqb_refl.
+    unfold list_sum. cbn [map fold_right snd]. rewrite Hl, Hl0. lia.
 Qed.
 
-Definition settle_op (o : op) : Prop :=
-  match o with Issue _ _ => False | GiftReady _ false => False | _ => True end.
-
-Lemma drain_receiver : forall n s, rmeasure s <= n -> AInv (abs s) -> RInv s ->
+Lemma drain_receiver : forall n s, rmeasure s <= n -> lost s = false -> AInv (abs s) -> RInv s -> GInv s ->
   exists more, Forall settle_op more /\
     inq (fold_left step more s) = [] /\ waiting (fold_left step more s) = [] /\
     sw_part (fold_left step more s) = sw_part s.
 Proof.
-  induction n as [|n IH]; intros s Hm I R.
+  induction n as [|n IH]; intros s Hm El I R G.
   - exists []. cbn [fold_left]. unfold rmeasure in Hm.
-    destruct (inq s); [|cbn in Hm; lia]. destruct (waiting s); [|cbn in Hm; lia]. auto.
-  - destruct (wait_len s I) as [Ew|[x Ew]].
+    destruct (inq s); [|unfold list_sum in Hm; cbn in Hm; lia].
+    destruct (waiting s); [|unfold list_sum in Hm; cbn in Hm; lia]. auto.
+  - destruct (wait_len s I) as [Ew|[[x g] Ew]].
     + destruct (inq s) as [|e rest] eqn:Ei; [exists []; cbn [fold_left]; auto|].
       assert (Hi : inq s <> []) by (rewrite Ei; discriminate).
-      pose proof (R Hi Ew) as He.
+      pose proof (R El Hi Ew) as He.
       destruct (IH (turn s)) as (more & Hf & H1 & H2 & H3).
-      { pose proof (turn_measure s Ew Hi He). lia. }
+      { pose proof (turn_measure s El Ew Hi He). lia. }
+      { exact (eq_trans (settle_step_lost s Turn Logic.I) El). }
       { eapply effs_preserves; [apply (step_effs s Turn I) | exact I]. }
       { apply (step_rinv s Turn R). }
+      { apply (step_ginv s Turn G). }
       exists (Turn :: more). cbn [fold_left step]. split; [constructor; [cbn; trivial | exact Hf]|].
       split; [exact H1|]. split; [exact H2|]. rewrite H3. unfold turn. rewrite thunks_sw. reflexivity.
-    + destruct (IH (gift_ready (cid x) true s)) as (more & Hf & H1 & H2 & H3).
-      { pose proof (gift_measure s x Ew). lia. }
+    + destruct G as [Gw Gq]. destruct (Gw x g) as [m L]; [rewrite Ew; left; reflexivity|].
+      destruct (IH (gift_ready (cid x) true s)) as (more & Hf & H1 & H2 & H3).
+      { pose proof (gift_measure s x g m El Ew L). lia. }
+      { exact (eq_trans (settle_step_lost s (GiftReady (cid x) true) Logic.I) El). }
       { eapply effs_preserves; [apply (step_effs s (GiftReady (cid x) true) I) | exact I]. }
       { apply (step_rinv s (GiftReady (cid x) true) R). }
+      { apply (step_ginv s (GiftReady (cid x) true)). split; assumption. }
       exists (GiftReady (cid x) true :: more). cbn [fold_left step]. split; [constructor; [cbn; trivial | exact Hf]|].
-      split; [exact H1|]. split; [exact H2|]. rewrite H3.
-      unfold gift_ready. rewrite Ew. cbn [find]. rewrite Nat.eqb_refl. reflexivity.
+      split; [exact H1|]. split; [exact H2|]. rewrite H3. apply gift_ready_sw.
 Qed.
 
 Lemma forall_repeat {A} (P : A -> Prop) x k : P x -> Forall P (repeat x k).
 Proof. intros H. induction k; cbn [repeat]; constructor; assumption. Qed.
 
-Theorem can_always_settle ops :
+Theorem can_always_settle ops : lost (run ops) = false ->
   exists more, Forall settle_op more /\ pipeline (run (ops ++ more)) = [].
 Proof.
-  pose (s0 := run ops).
+  intros El. pose (s0 := run ops).
   destruct (drain_sender (smeasure s0) s0 (le_n _)) as [k1 [Hc1 Hq1]].
   { apply (run_from_sinv ops init). intros _; reflexivity. }
   set (s1 := fold_left step (repeat StallRelease k1) s0) in *.
-  destruct (drain_wire (List.length (wire s1)) s1 (le_n _) Hc1 Hq1) as [k2 (Hc2 & Hq2 & Hw2)].
+  assert (El1 : lost s1 = false).
+  { subst s1. rewrite settle_run_lost; [exact El | apply forall_repeat; exact I]. }
+  destruct (drain_wire (List.length (wire s1)) s1 El1 (le_n _) Hc1 Hq1) as [k2 (Hc2 & Hq2 & Hw2)].
   set (s2 := fold_left step (repeat Deliver k2) s1) in *.
+  assert (El2 : lost s2 = false).
+  { subst s2. rewrite settle_run_lost; [exact El1 | apply forall_repeat; exact I]. }
   assert (I2 : AInv (abs s2)) by (apply run_from_inv, run_from_inv, run_inv).
   assert (R2 : RInv s2).
-  { apply run_from_rinv, run_from_rinv. apply (run_from_rinv ops init). intros H; cbn in H; congruence. }
-  destruct (drain_receiver (rmeasure s2) s2 (le_n _) I2 R2) as (more & Hf & Hi & Hw & Hsw).
+  { apply run_from_rinv, run_from_rinv. apply (run_from_rinv ops init). apply RInv_init. }
+  assert (G2 : GInv s2).
+  { apply run_from_ginv, run_from_ginv. apply (run_from_ginv ops init). apply GInv_init. }
+  destruct (drain_receiver (rmeasure s2) s2 (le_n _) El2 I2 R2 G2) as (more & Hf & Hi & Hw & Hsw).
   exists (repeat StallRelease k1 ++ repeat Deliver k2 ++ more). split.
   - apply Forall_app; split; [apply forall_repeat; exact I|].
     apply Forall_app; split; [apply forall_repeat; exact I | exact Hf].
   - unfold run. rewrite !fold_left_app. fold (run ops). fold s0. fold s1. fold s2.
-    unfold pipeline, inq_ids, upstream, cur_ids. rewrite Hi, Hw.
+    unfold pipeline, inq_ids, wait_ids, upstream, cur_ids. rewrite Hi, Hw.
     unfold sw_part in Hsw. inversion Hsw as [[E1 E2 E3]]. rewrite E1, E2, E3, Hc2, Hq2, Hw2. reflexivity.
 Qed.
 
@@ -920,19 +1237,79 @@ Lemma count_issues_app a b : count_issues (a ++ b) = count_issues a + count_issu
 Proof. unfold count_issues. rewrite filter_app, app_length. reflexivity. Qed.
 
 (* every issued call can still be brought to a conclusion: entered, or explicitly refused *)
-Theorem eventually_entered_or_refused ops :
+Theorem eventually_entered_or_refused ops : lost (run ops) = false ->
   exists more, Forall settle_op more /\
     forall c, c < count_issues ops ->
       In c (entered (run (ops ++ more))) \/ In (Failed c) (history (run (ops ++ more))) \/
       In (Rejected c) (history (run (ops ++ more))).
 Proof.
-  destruct (can_always_settle ops) as (more & Hf & Hp). exists more. split; [exact Hf|].
+  intros El. destruct (can_always_settle ops El) as (more & Hf & Hp). exists more. split; [exact Hf|].
   intros c Hc.
-  destruct (no_silent_loss (ops ++ more) c) as [H|[H|H]].
+  assert (Ed : dropped (run (ops ++ more)) = []).
+  { apply dropped_only_after_loss. unfold run. rewrite fold_left_app. rewrite settle_run_lost; assumption. }
+  destruct (no_silent_loss (ops ++ more) c) as [H|[H|[H|[H|H]]]].
   - unfold run. rewrite run_from_next, count_issues_app. cbn [next_id init]. lia.
   - left; exact H.
   - rewrite Hp in H. destruct H.
-  - right; exact H.
+  - right; left; exact H.
+  - right; right; exact H.
+  - rewrite Ed in H. destruct H.
+Qed.
+
+(* ------------------------------------------------------------------ *)
+(* connection loss: once the receiver has lost the connection nothing is entered any more, whatever happens next
+   (calls issued, stalls released, bytes "delivered", gifts resolved, turns, a second loss) *)
+
+Lemma do_next_lost_id s : lost s = true -> do_next s = s.
+Proof. intros El. unfold do_next. rewrite loss_stops_dequeue, El. reflexivity. Qed.
+
+Lemma thunks_lost_entered batch : forall s, lost s = true -> entered (fold_left run_thunk batch s) = entered s.
+Proof.
+  induction batch as [|t b IH]; intros s El; cbn [fold_left]; [reflexivity|].
+  destruct t; cbn [run_thunk]. rewrite (do_next_lost_id s El). apply IH, El.
+Qed.
+
+Lemma pump_trace f s : trace (pump f s) = trace s.
+Proof. pose proof (pump_abs f s) as H. apply (f_equal a_trace) in H. exact H. Qed.
+
+Lemma step_lost_stays s o : lost s = true -> lost (step s o) = true.
+Proof.
+  intros El. destruct o; cbn [step].
+  - unfold issue. match goal with |- context [if ?b then _ else _] => destruct b end; rewrite ?pump_lost; exact El.
+  - unfold release. destruct (cur s) as [[c [|[|m]]]|]; rewrite ?pump_lost; exact El.
+  - unfold deliver. rewrite El. exact El.
+  - destruct (gift_ready_parts k ok s) as (_ & _ & ->). exact El.
+  - unfold turn. rewrite thunks_lost. exact El.
+  - unfold disconnect. rewrite El. exact El.
+Qed.
+
+Lemma step_lost_entered s o : GInv s -> lost s = true -> entered (step s o) = entered s.
+Proof.
+  intros G El. unfold entered. destruct o; cbn [step].
+  - unfold issue. match goal with |- context [if ?b then _ else _] => destruct b end; rewrite ?pump_trace; reflexivity.
+  - pose proof (release_abs s) as H. apply (f_equal a_trace) in H. cbn [abs a_trace] in H. rewrite H. reflexivity.
+  - unfold deliver. rewrite El. reflexivity.
+  - unfold gift_ready. rewrite gift_after_loss_fails, El. cbn [andb negb]. rewrite andb_false_r.
+    destruct (find _ (waiting s)) as [[c g]|] eqn:Ef; [|reflexivity].
+    (* the resolution counts as a failure, and a live network answers a failure with a failure *)
+    apply find_some in Ef. destruct Ef as [Hin _]. destruct G as [Gw _]. destruct (Gw _ _ Hin) as [m L].
+    destruct (fire_false m g L) as [-> _]. unfold finish_call. cbn [trace andb entered_of]. reflexivity.
+  - unfold turn. apply (thunks_lost_entered _ (mk _ _ _ _ _ _ [] _ _ _)). exact El.
+  - unfold disconnect. rewrite El. reflexivity.
+Qed.
+
+Theorem nothing_entered_after_loss ops more : lost (run ops) = true -> entered (run (ops ++ more)) = entered (run ops).
+Proof.
+  unfold run. rewrite fold_left_app. generalize (run_from_ginv ops init GInv_init). generalize (fold_left step ops init). clear ops.
+  intros s G. revert s G.
+  induction more as [|o more IH]; intros s G El; cbn [fold_left]; [reflexivity|].
+  rewrite IH; [apply step_lost_entered; assumption | apply step_ginv, G | apply step_lost_stays, El].
+Qed.
+
+Theorem loss_is_final ops more : lost (run ops) = true -> lost (run (ops ++ more)) = true.
+Proof.
+  unfold run. rewrite fold_left_app. generalize (fold_left step ops init). clear ops.
+  induction more as [|o more IH]; intros s El; cbn [fold_left]; [exact El|]. apply IH, step_lost_stays, El.
 Qed.
 
 (* ------------------------------------------------------------------ *)
@@ -994,7 +1371,7 @@ Proof. vm_compute. reflexivity. Qed.
 
 (* a call blocked behind a gift, an early and a late refusal: the hypotheses of head_of_line are met *)
 Definition hol_example : list op :=
-  [Issue 0 FGift; Issue 0 FRejectEarly; Issue 0 FRejectLate; Issue 2 FPlain; StallRelease; StallRelease;
+  [Issue 0 (FGift 1); Issue 0 FRejectEarly; Issue 0 FRejectLate; Issue 2 FPlain; StallRelease; StallRelease;
    Deliver; Deliver; Deliver; Deliver; Turn; Turn; GiftReady 0 true; Turn; Turn].
 
 Example hol_example_history :
@@ -1011,7 +1388,45 @@ Proof.
 Qed.
 
 Example waiting_is_reached :
-  waiting (run [Issue 0 FGift; Deliver; Turn]) = [{| cid := 0; stalls := 0; cfate := FGift |}].
+  wait_ids (run [Issue 0 (FGift 1); Deliver; Turn]) = [0].
+Proof. vm_compute. reflexivity. Qed.
+
+(* a call with three third-party references: runnable only after the third has resolved *)
+Example three_gifts :
+  map (fun ops => entered (run ops))
+      [ [Issue 0 (FGift 3); Issue 0 FPlain; Deliver; Deliver; Turn; GiftReady 0 true; Turn; GiftReady 0 true; Turn];
+        [Issue 0 (FGift 3); Issue 0 FPlain; Deliver; Deliver; Turn; GiftReady 0 true; Turn; GiftReady 0 true; Turn;
+         GiftReady 0 true; Turn; Turn] ] = [ []; [0; 1] ].
+Proof. vm_compute. reflexivity. Qed.
+
+(* ... and refused as soon as one of them fails, also while it is still queued behind another waiting call *)
+Example gift_fails_while_queued :
+  history (run [Issue 0 (FGift 1); Issue 0 (FGift 2); Issue 0 FPlain; Deliver; Deliver; Deliver; Turn;
+                GiftReady 1 false; GiftReady 0 true; Turn; Turn; Turn]) =
+  [Queued 0; Queued 1; Queued 2; Entered 0; Failed 1; Entered 2].
+Proof. vm_compute. reflexivity. Qed.
+
+Example live_example : live 3 (gnet_init 3) /\ List.length [true; true] <= 3.
+Proof. split; [apply live_init; lia | cbn; lia]. Qed.
+
+(* the connection is lost while call 0 waits for its gift and calls 1, 2 are queued behind it, call 3 is still on the
+   wire: the hypotheses of nothing_entered_after_loss / loss_is_final are met, 1 and 2 are dropped, and even the gift
+   that resolves afterwards does not let call 0 in *)
+Definition loss_example : list op :=
+  [Issue 0 FPlain; Issue 0 (FGift 1); Issue 0 FPlain; Issue 0 FPlain; Issue 0 FPlain; Deliver; Deliver; Deliver; Deliver;
+   Turn; Turn; Turn; Disconnect].
+
+Example loss_example_state :
+  (lost (run loss_example), entered (run loss_example), wait_ids (run loss_example),
+   ids (dropped (run loss_example)) ++ inq_ids (run loss_example), ids (wire (run loss_example))) = (true, [0], [1], [2; 3], [4]).
+Proof. vm_compute. reflexivity. Qed.
+
+Example loss_example_after :
+  history (run (loss_example ++ [GiftReady 1 true; Turn; Deliver; Turn; Turn])) =
+  [Queued 0; Queued 1; Queued 2; Queued 3; Entered 0; Failed 1].
+Proof. vm_compute. reflexivity. Qed.
+
+Example settle_example : lost (run hol_example) = false.
 Proof. vm_compute. reflexivity. Qed.
 
 Example local_example :
